@@ -59,7 +59,7 @@ BANIS = ("anis", (24, 96, True, True))
 # TPL models: keep the optimiser away from len_scale -> 0 / len_low -> inf where var_factor degenerates
 BTPL = (("len", (16, 512, True, True)), ("opt", (0, 512, True, True)))
 
-ALL_SILL = [("none", 0), ("true", 0), ("false", 0), ("val", 128), ("val", 64), ("val", -64)]
+ALL_SILL = [("none", 0), ("true", 0), ("false", 0), ("val", 128), ("val", 88), ("val", 64), ("val", 16), ("val", -64)]
 
 
 def jobs_for(tier):
@@ -85,7 +85,7 @@ def jobs_for(tier):
     js.append(("TPL2", dict(cls="TPL", real="TPLGaussian", dim=2, dirs=[False, True] if thorough else [False],
                             latlon=False, sills=ALL_SILL if thorough else some,
                             anis=["fit", "off"],
-                            bnds=[BTPL, BTPL + (BNUG,)] + ([BTPL + (BVAR,)] if thorough else []))))
+                            bnds=[BTPL, BTPL + (BNUG,), BTPL + (BVAR,)])))
     if thorough:
         js.append(("Opt3", dict(cls="Opt", real="Stable", dim=3, dirs=[True], latlon=False,
                                 sills=[("none", 0), ("false", 0), ("val", 128)], anis=["fit", "off", "fix"],
@@ -167,7 +167,7 @@ def mc_module(name, job, maxev=1, candev=None):
     txt += "McCfgs == {c \\in McAll : PreLegal(c)}\n"
     txt += "McCand == " + _rec({k: _set(str(x) for x in v) for k, v in CAND.items()}) + "\n"
     txt += "McCandEv == " + _rec({k: _set(str(x) for x in v) for k, v in ce.items()}) + "\n====\n"
-    cfg = INT_CFG + " MaxEv = %d\nINIT Init\nNEXT Next\n" % maxev
+    cfg = INT_CFG + " MaxEv = %d\n InfTail = TRUE\nINIT Init\nNEXT Next\n" % maxev
     cfg += "INVARIANT IdealSound\nINVARIANT IdealPreLegal\nINVARIANT LastEvalDecides\n"
     return txt, cfg
 
@@ -512,6 +512,14 @@ def adversary(evs, popt):
     return opt
 
 
+def trivial_optimiser(call, g, xdata, ydata, p0, bounds, kw, orig):
+    """evaluates the start vector and returns it"""
+    n = len(p0)
+    if n:
+        g(xdata, *p0)
+    return np.array(p0, dtype=float), np.zeros((n, n))
+
+
 def scipy_optimiser(call, g, xdata, ydata, p0, bounds, kw, orig):
     return orig(g, xdata, ydata, p0=p0, bounds=bounds, **kw)
 
@@ -520,60 +528,85 @@ def scipy_optimiser(call, g, xdata, ydata, p0, bounds, kw, orig):
 # verdicts
 
 
+def eff_fit(c, a):
+    """is argument a handed to the optimiser (after the sill preprocessing)?"""
+    cs = c["sill"]["k"] in ("false", "val")
+    if a == "anis":
+        return c["dir"] and c["anis"]["k"] == "fit"
+    if a not in c["sel"] or c["sel"][a]["k"] != "fit":
+        return False
+    if a == "var":
+        return not (cs and c["sel"]["nug"]["k"] != "fit")
+    if a == "nug":
+        return not cs
+    return True
+
+
 def cfg_class(c, cp=None):
     """coarse configuration class used in violation signatures"""
     fam = "TPL" if c["cls"] == "TPL" else "std"
-    sk = c["sill"]["k"]
-    sill = "nosill" if sk in ("none", "true") else "sill"
-    return "%s:%s:%s" % (fam, sill, "var-fitted" if c["sel"]["var"]["k"] == "fit" else "var-not-fitted")
+    sill = "nosill" if c["sill"]["k"] in ("none", "true") else "sill"
+    return "%s:%s:%s" % (fam, sill, "var-fitted" if eff_fit(c, "var") else "var-not-fitted")
 
 
 def match_ideal(c, e, call, tol=1e-12):
-    """None when the real outcome is the ideal end e, else the first differing observable."""
+    """None when the real outcome is the ideal end e, else (checks passed, first differing observable)."""
     if e["st"] == "any":
         return None
     if e["st"] == "error":
-        return None if call.st == "error" else "error:missing"
+        return None if call.st == "error" else (0, "error:missing")
     if call.st != "ok":
-        return "error:spurious"
+        return (0, "error:spurious")
     if e["st"] == "success":
         return None
     exp = dict(var=q2f(e["m"]["var"]), len=q2f(e["m"]["len"]), nug=q2f(e["m"]["nug"]), opt=q2f(e["m"]["opt"]),
                anis=[q2f(a) for a in e["m"]["anis"]])
+    n = 1
     for a in ("len", "opt", "anis", "var", "nug"):
         if c["cls"] == "Plain" and a == "opt":
             continue
         if not close(exp[a], call.final[a], tol):
-            return "model:" + a
+            return (n, "model:" + a)
+        n += 1
     for a in ("len", "opt", "var", "nug"):
         if c["cls"] == "Plain" and a == "opt":
             continue
         if not close(exp[a], call.ret[a], tol):
-            return "dict:" + a
+            return (n, "dict:" + a)
+        n += 1
     if c["dir"] and not close(exp["anis"], call.ret["anis"], tol):
-        return "dict:anis"
+        return (n, "dict:anis")
     if call.ret["keys"] != expected_keys(c):
-        return "dict:keys"
+        return (n + 1, "dict:keys")
     for k, v in call.other_before.items():
         if call.final[k] != v:
-            return "model:" + k
+            return (n + 2, "model:" + k)
     if c["cls"] == "TPL" and (call.final["hurst"] != 0.5 or call.ret["hurst"] != 0.5):
-        return "model:hurst"
+        return (n + 3, "model:hurst")
     return None
 
 
 def observable_name(tag, c):
     """property-level name of a differing observable"""
-    if tag.startswith("error"):
+    if tag.startswith("error") or tag.startswith("accepted") or tag.startswith("bounds"):
         return tag
     kind, a = tag.split(":")
     cs = c["sill"]["k"] in ("false", "val")
-    if a in ("var", "nug") and cs and kind == "model":
-        return "sill-identity"
     if kind == "model":
-        fitted = (c["sel"][a]["k"] == "fit") if a in ARGS else (a == "anis" and c["dir"] and c["anis"]["k"] == "fit")
-        return ("fitted:" if fitted else "untouched:") + a
+        if a == "nug" and cs and eff_fit(c, "var"):
+            return "sill-identity"      # the nugget is the one derived from the sill
+        return ("fitted:" if eff_fit(c, a) else "untouched:") + a
     return "dict:" + a
+
+
+def violation_key(obs, c, call=None):
+    """signature of a violation: observable, model family, configuration class.  Exceptions are
+    classified by the family and the argument the model complained about."""
+    fam = "TPL" if c["cls"] == "TPL" else "std"
+    if obs.startswith("error") or obs.startswith("accepted"):
+        m = re.search(r"ValueError\(['\"](\w+) needs to be", (call.exc or "") if call is not None else "")
+        return "%s:%s%s" % (obs, fam, (":%s-bounds" % m.group(1)) if m and obs == "error:spurious" else "")
+    return "%s:%s" % (obs, cfg_class(c))
 
 
 def check_against_ideal(rep, c, iends, call, origin, replay):
@@ -584,10 +617,9 @@ def check_against_ideal(rep, c, iends, call, origin, replay):
         tags = [match_ideal(c, e, call) for e in iends]
         if any(t is None for t in tags):
             return None
-        oks = [t for e, t in zip(iends, tags) if e["st"] in ("ok", "success")]
-        tag = oks[0] if oks else tags[0]
+        tag = max(tags)[1]      # the alternative that explains most of the outcome
     obs = observable_name(tag, c)
-    key = "%s:%s" % (obs, cfg_class(c))
+    key = violation_key(obs, c, call)
     what = "%s: %s; admissible outcomes %s, real outcome %s" % (
         origin, _describe(obs), [_short_end(e) for e in iends] or "none (optimum outside the parameter bounds)",
         _short_call(call))
@@ -604,6 +636,10 @@ def _describe(obs):
         return "fitted parameter differs from the returned optimum (%s)" % obs.split(":")[1]
     if obs.startswith("dict"):
         return "returned dictionary differs from the model state (%s)" % obs.split(":")[1]
+    if obs.startswith("bounds"):
+        return "value outside the parameter bounds after the fit (%s)" % obs.split(":")[1]
+    if obs == "accepted:out-of-bounds":
+        return "an optimum outside the parameter bounds was accepted"
     if obs == "error:in-box":
         return "ValueError although the optimiser stayed inside the box it was given (box exceeds the parameter bounds)"
     if obs == "error:spurious":
@@ -695,8 +731,21 @@ def _adv_chunk(task):
         call = Call(c, job["real"], kwargs).run(adversary(rp["evals"], rp["popt"]))
         out["n"] += 1
         if call.st == "skip":
+            # the real code hands a different vector layout / box to the optimiser than the transcription:
+            # drive it with a trivial optimiser and check the clauses of the property directly
             out["skipped"] += 1
-            col.drift_msg("adversary vector outside the box of the real code (transcription stale?): %s" % job["real"])
+            col.drift_msg("adversary vector does not fit the box / arity of the real code (transcription stale?): "
+                          "%s fit_variogram(%s)" % (job["real"], _kw_str(kwargs)))
+            call = Call(c, job["real"], kwargs).run(trivial_optimiser)
+            ialts = [dict(a) for a in _thaw(cache.get_parsed(sv["ialts"]))]
+            tag, _edge = check_scipy_run(c, ialts, call)
+            if tag:
+                obs = observable_name(tag, c)
+                key = violation_key(obs, c, call)
+                col.violation(key, "%s %s, fit_variogram(%s), optimiser returns its start vector: %s; real outcome %s"
+                              % (job["real"], _cfg_str(c), _kw_str(kwargs), _describe(obs), _short_call(call)),
+                              dict(rp, mode="trivial"))
+                out["viol_keys"][key] = out["viol_keys"].get(key, 0) + 1
             continue
         if cp["st"] == "ready" and evs:
             out["nontrivial"].add(hash((jname, tlaval.freeze(c), tlaval.freeze(evs), tlaval.freeze(popt))))
@@ -821,65 +870,68 @@ def check_scipy_run(c, ialts, call):
             return None, "optimiser-failed"
         return "error:spurious", None
     # success: one of the ready alternatives must explain the end state
-    last = None
-    for a in readys:
-        t = _check_ready(c, a, call)
-        if t is None:
-            return None, None
-        last = last or t
-    return last, None
+    tags = [_check_ready(c, a, call) for a in readys]
+    if any(t is None for t in tags):
+        return None, None
+    return max(tags)[1], None      # the alternative that explains most of the outcome
 
 
 def _check_ready(c, a, call):
+    """clauses of C10 for one ready alternative a: None, or (checks passed, first failing observable)"""
     f, r = call.final, call.ret
     para, pm = a["para"], a["m"]
     tol = 1e-12
-    for n in ARGS:
-        if c["cls"] == "Plain" and n == "opt":
+    n = 0
+    for nme in ARGS:
+        if c["cls"] == "Plain" and nme == "opt":
             continue
-        derived = n == "nug" and a["cs"] and para["var"]
-        if para[n]:
-            if not _inb(c["bnd"][n], f[n]):
-                return "bounds:" + n
+        derived = nme == "nug" and a["cs"] and para["var"]
+        if para[nme]:
+            if not _inb(c["bnd"][nme], f[nme]):
+                return (n, "bounds:" + nme)
         elif not derived:
-            exact = q2f(pm[n])
-            if not (f[n] == exact or (c["cls"] == "TPL" and n == "var" and close(f[n], exact, tol))):
-                return "model:" + n
+            exact = q2f(pm[nme])
+            if not (f[nme] == exact or (c["cls"] == "TPL" and nme == "var" and close(f[nme], exact, tol))):
+                return (n, "model:" + nme)
+        n += 1
     if a["fanis"]:
         if not all(_inb(c["bnd"]["anis"], v) for v in f["anis"]):
-            return "bounds:anis"
+            return (n, "bounds:anis")
     elif f["anis"] != [q2f(v) for v in pm["anis"]]:
-        return "model:anis"
+        return (n, "model:anis")
+    n += 1
     if a["cs"]:
         s = q2f(a["sill"])
         if not abs(f["var"] + f["nug"] - s) <= tol * abs(s):
-            return "model:nug" if para["var"] else "model:var"
+            return (n, "model:nug" if para["var"] else "model:var")
         if not _inb(c["bnd"]["nug"], f["nug"]) or not _inb(c["bnd"]["var"], f["var"]):
-            return "bounds:sill"
-    for n in ARGS:
-        if c["cls"] == "Plain" and n == "opt":
+            return (n, "bounds:sill")
+    n += 1
+    for nme in ARGS:
+        if c["cls"] == "Plain" and nme == "opt":
             continue
-        if not close(f[n], r[n], tol):
-            return "dict:" + n
+        if not close(f[nme], r[nme], tol):
+            return (n, "dict:" + nme)
+        n += 1
     if c["dir"] and not close(f["anis"], r["anis"], tol):
-        return "dict:anis"
+        return (n, "dict:anis")
     if r["keys"] != expected_keys(c):
-        return "dict:keys"
+        return (n + 1, "dict:keys")
     for k, v in call.other_before.items():
         if f[k] != v:
-            return "model:" + k
+            return (n + 2, "model:" + k)
     if c["cls"] == "TPL" and (f["hurst"] != 0.5 or r["hurst"] != 0.5):
-        return "model:hurst"
+        return (n + 3, "model:hurst")
     # the recorded optimum must be what the model holds for the fitted arguments
     names = vec_names(para, a["fanis"], c["dim"])
     if len(names) == len(call.popt):
         i_anis = 0
-        for n, v in zip(names, call.popt):
-            got = f["anis"][i_anis] if n == "anis" else f[n]
-            if n == "anis":
+        for nme, v in zip(names, call.popt):
+            got = f["anis"][i_anis] if nme == "anis" else f[nme]
+            if nme == "anis":
                 i_anis += 1
             if not close(got, v, tol):
-                return "model:" + n
+                return (n + 4, "model:" + nme)
     return None
 
 
@@ -943,7 +995,7 @@ def _floats_of(c, call, evs):
     return {v for v in vals if v == v and abs(v) != float("inf")}
 
 
-def trace_record(c, call, tail=5):
+def trace_record(c, call, tail=4):
     """recorded run -> record for TraceFit (fixed point); None when the floats of the run are not
     represented faithfully (range, or two distinct floats with the same image)"""
     evs0 = call.evals
@@ -990,6 +1042,7 @@ def _scipy_chunk(task):
         kwargs = dict(opts)
         kwargs.update(build_kwargs(c, i % 6))
         kwargs["return_r2"] = True
+        kwstr, kwjson = _kw_str(kwargs), _kw_json({k: v for k, v in build_kwargs(c, i % 6).items()})
         call = Call(c, job["real"], kwargs, which).run(scipy_optimiser)
         out["n"] += 1
         out["nfev"] += len(call.evals)
@@ -997,12 +1050,12 @@ def _scipy_chunk(task):
         if edge:
             out["edges"][edge] = out["edges"].get(edge, 0) + 1
         rp = {"mode": "scipy", "job": jname, "real": job["real"], "cfg": c, "index": i, "truth": which,
-              "kwargs": _kw_json({k: v for k, v in kwargs.items() if not callable(v)}), "options": desc}
+              "kwargs": kwjson, "options": desc}
         if tag:
-            obs = tag if tag.startswith("bounds") else observable_name(tag, c)
-            key = "%s:%s" % (obs, cfg_class(c))
+            obs = observable_name(tag, c)
+            key = violation_key(obs, c, call)
             col.violation(key, "%s %s, fit_variogram(%s) on exact %s data with the scipy optimiser: %s; "
-                          "real outcome %s" % (job["real"], _cfg_str(c), _kw_str(kwargs), job["real"],
+                          "real outcome %s" % (job["real"], _cfg_str(c), kwstr, job["real"],
                                                _describe(obs), _short_call(call)), rp)
             out["viol_keys"][key] = out["viol_keys"].get(key, 0) + 1
         if call.called and call.st == "ok":
@@ -1020,7 +1073,7 @@ def _scipy_chunk(task):
             else:
                 out["traces"].append((jname, i, tr))
         if len(out["samples"]) < 1 and call.called and call.st == "ok" and c["sill"]["k"] == "val":
-            out["samples"].append({"mode": "scipy", "class": job["real"], "call": _kw_str(kwargs),
+            out["samples"].append({"mode": "scipy", "class": job["real"], "call": kwstr,
                                    "curve_evaluations": len(call.evals), "optimum": call.popt,
                                    "model_after": {k: call.final[k] for k in ("var", "len", "nug", "opt", "anis")},
                                    "r2": call.r2})
@@ -1047,7 +1100,7 @@ def _tla(v):
 
 
 TRACE_CFG = ("CONSTANTS\n Plus <- FxPlus\n Minus <- FxMinus\n Le <- FxLe\n Same <- FxSame\n"
-             " VarOfRaw <- FxNoTPL\n RawOfVar <- FxNoTPL\n Cfgs = {}\n Cand = 0\n CandEv = 0\n MaxEv = 0\n"
+             " VarOfRaw <- FxNoTPL\n RawOfVar <- FxNoTPL\n Cfgs = {}\n Cand = 0\n CandEv = 0\n MaxEv = 0\n InfTail = FALSE\n"
              " Runs <- McRuns\nINIT TInit\nNEXT TNext\n")
 
 
@@ -1090,6 +1143,8 @@ def run(pid, tier, seed, replay=None):
 
     thorough = tier == "thorough"
     jobs = jobs_for(tier)
+    if os.environ.get("VERIF_ONLY"):   # development aid: restrict the jobs
+        jobs = [j for j in jobs if j[0] in os.environ["VERIF_ONLY"].split(",")]
     nproc = 14
     with tlc.Scratch() as sc:
         t0 = time.time()
@@ -1101,12 +1156,15 @@ def run(pid, tier, seed, replay=None):
                           dict(workers=2, dump=("states", sc.path("D_" + name)), timeout=2400, heap="4g")))
         # any finite sequence of evaluations: two evaluations with the full candidate sets, no dump
         for name, job in jobs:
-            if name not in ("Plain2", "TPL2") and not thorough:
+            if name not in (("Plain2", "TPL2", "Opt2") if thorough else ("Plain2", "TPL2")):
+                continue
+            if os.environ.get("VERIF_ONLY"):
                 continue
             j2 = dict(job)
-            if not thorough:
-                j2["dirs"] = job["dirs"][:1]
-                j2["anis"] = job["anis"][:1]
+            j2["dirs"] = job["dirs"][:1]
+            j2["anis"] = job["anis"][:1]
+            if thorough:
+                j2["bnds"] = job["bnds"][:3]
             mod, cfg = mc_module("EV2_" + name, j2, maxev=2, candev=CANDEV2 if thorough else CANDEV)
             sc.write("EV2_%s.tla" % name, mod)
             tjobs.append((("ev2", name), sc, "EV2_" + name, cfg, dict(workers=2, timeout=2400, heap="4g")))
@@ -1186,11 +1244,12 @@ def run(pid, tier, seed, replay=None):
         # ---- trace validation
         t0 = time.time()
         traces.sort(key=lambda t: (t[0], t[1]))
-        cap = None if thorough else 1800
-        if cap and len(traces) > cap:
+        cap = 8100 if thorough else 1350
+        n_recorded = len(traces)
+        if len(traces) > cap:
             keep = sorted(rng.sample(range(len(traces)), cap))
             traces = [traces[i] for i in keep]
-        nmod = 8 if thorough else 4
+        nmod = max(1, (len(traces) + 449) // 450)
         tj = []
         for m in range(nmod):
             part = traces[m::nmod]
@@ -1199,7 +1258,7 @@ def run(pid, tier, seed, replay=None):
             sc.write("TR_%d.tla" % m, trace_module("TR_%d" % m, [t[2] for t in part]))
             tj.append((("trace", m), sc, "TR_%d" % m, TRACE_CFG,
                        dict(workers=2, dump=("states", sc.path("TD_%d" % m)), timeout=2400, heap="6g")))
-        tres = tlc.run_many(tj, parallel=4)
+        tres = tlc.run_many(tj, parallel=6)
         tv_ideal, tv_impl, tv_edge, validated = {}, {}, {}, 0
         for (kind, m), r in sorted(tres.items()):
             tlc.must_pass(r, "TraceFit %d" % m)
@@ -1226,7 +1285,7 @@ def run(pid, tier, seed, replay=None):
                     real = dict(jobs)[jname]["real"]
                     opts, desc, which = numeric_options(i, c, data_for(c, real, 0)[0])
                     kwargs = build_kwargs(c, i % 6)
-                    rep.violation("%s:%s" % (obs, cfg_class(c)),
+                    rep.violation(violation_key(obs, c),
                                   "TraceFit: the recorded run of %s %s fit_variogram(%s; %s) is not a behaviour of the "
                                   "documented semantics: %s (tags %s)" % (real, _cfg_str(c), _kw_str(kwargs), desc,
                                                                           _describe(obs), sorted(tv["ideal"])),
@@ -1234,6 +1293,7 @@ def run(pid, tier, seed, replay=None):
                                    "kwargs": _kw_json(kwargs), "options": desc})
         print("TraceFit: %d recorded runs validated (%.1fs)" % (validated, time.time() - t0))
         rep.extra["recorded_runs_validated_by_TraceFit"] = validated
+        rep.extra["recorded_runs_representable"] = n_recorded
         rep.extra["tracefit_tags"] = {"ideal": tv_ideal, "transcription": tv_impl, "undocumented_edges": tv_edge}
     # ---- summary
     rep.extra["transcription_vs_documentation (TLC, disc of end states)"] = disc_total
@@ -1273,7 +1333,10 @@ def _replay(path):
     c = rp["cfg"]
     kwargs = dict(rp["kwargs"])
     print("replaying", rp["mode"], rp["real"], _cfg_str(c), "fit_variogram(%s)" % _kw_str(kwargs))
-    if rp["mode"] == "adversary":
+    if rp["mode"] == "trivial":
+        call = Call(c, rp["real"], kwargs).run(trivial_optimiser)
+        print("  optimiser returns its start vector", call.p0)
+    elif rp["mode"] == "adversary":
         call = Call(c, rp["real"], kwargs).run(adversary(rp["evals"], rp["popt"]))
         print("  optimiser evaluates", rp["evals"], "returns", rp["popt"])
         print("  admissible:", [_short_end(e) for e in rp["admissible"]])
